@@ -31,6 +31,26 @@ func (scTCPAB) NeutralISS(raw json.RawMessage) json.RawMessage {
 }
 
 func (scTCPAB) GenCfg(rng *sim.Rand, tier, prop, variant string) json.RawMessage {
+	if variant == "dropenum" {
+		// fault positions instead of fault rates: one canonical exchange (the applications
+		// connect, write what is planned, shut down or close, read to the end) on a benign,
+		// zero-delay wire that loses exactly the i-th - or the i-th and the j-th - frame
+		// emitted in the run, for i < j < 64
+		c := ABCfg{SackA: rng.Chance(0.5), CC: []string{"reno", "cubic"}[rng.Intn(2)], MTU: 1500, NConn: 1, DropOnly: true,
+			RcvBufB: []int{0, 4096}[rng.Intn(2)], CloseMix: rng.Intn(2)}
+		c.SackB = c.SackA
+		c.Bytes = []int{[]int{0, 1, 3000, 20000}[rng.Intn(4)], []int{0, 2000}[rng.Intn(2)]}
+		i := rng.Intn(64)
+		c.DropIDs = []int{i}
+		if rng.Chance(0.75) {
+			j := rng.Intn(64)
+			if j != i {
+				c.DropIDs = append(c.DropIDs, j)
+			}
+		}
+		b, _ := json.Marshal(c)
+		return b
+	}
 	c := GenABCfg(rng, tier, prop)
 	if prop == "C02" {
 		// injected one-way delays stay far below the bound; closes of every kind
